@@ -32,3 +32,70 @@ Proof.
   unfold is_scalar in Hc. apply andb_true_iff in Hc as [_ Hn]. apply negb_true_iff in Hn.
   rewrite Hn, Hb. eexists; reflexivity.
 Qed.
+
+(* ---- bytes.decode('utf-8', 'replace') as CPython does it: one U+FFFD per maximal invalid
+   subpart (Unicode ch. 3, Table 3-7 well-formed byte ranges) ---- *)
+Definition FFFD : Z := 65533.
+Definition is_cont (b : Z) : bool := (128 <=? b) && (b <=? 191).
+
+(* allowed range of the SECOND byte for a given lead byte of a 3- or 4-byte sequence *)
+Definition second_ok (lead b : Z) : bool :=
+  if lead =? 224 then (160 <=? b) && (b <=? 191)
+  else if lead =? 237 then (128 <=? b) && (b <=? 159)
+  else if lead =? 240 then (144 <=? b) && (b <=? 191)
+  else if lead =? 244 then (128 <=? b) && (b <=? 143)
+  else is_cont b.
+
+Fixpoint utf8_decode_fuel (fuel : nat) (b : bytes) : text :=
+  match fuel with
+  | O => []
+  | S f =>
+      match b with
+      | [] => []
+      | b0 :: r0 =>
+          if b0 <? 128 then b0 :: utf8_decode_fuel f r0
+          else if (194 <=? b0) && (b0 <=? 223) then
+            match r0 with
+            | b1 :: r1 => if is_cont b1 then ((b0 - 192) * 64 + (b1 - 128)) :: utf8_decode_fuel f r1
+                          else FFFD :: utf8_decode_fuel f r0
+            | [] => [FFFD]
+            end
+          else if (224 <=? b0) && (b0 <=? 239) then
+            match r0 with
+            | b1 :: r1 =>
+                if second_ok b0 b1 then
+                  match r1 with
+                  | b2 :: r2 => if is_cont b2
+                                then ((b0 - 224) * 4096 + (b1 - 128) * 64 + (b2 - 128)) :: utf8_decode_fuel f r2
+                                else FFFD :: utf8_decode_fuel f r1
+                  | [] => [FFFD]
+                  end
+                else FFFD :: utf8_decode_fuel f r0
+            | [] => [FFFD]
+            end
+          else if (240 <=? b0) && (b0 <=? 244) then
+            match r0 with
+            | b1 :: r1 =>
+                if second_ok b0 b1 then
+                  match r1 with
+                  | b2 :: r2 =>
+                      if is_cont b2 then
+                        match r2 with
+                        | b3 :: r3 =>
+                            if is_cont b3
+                            then ((b0 - 240) * 262144 + (b1 - 128) * 4096 + (b2 - 128) * 64 + (b3 - 128))
+                                 :: utf8_decode_fuel f r3
+                            else FFFD :: utf8_decode_fuel f r2
+                        | [] => [FFFD]
+                        end
+                      else FFFD :: utf8_decode_fuel f r1
+                  | [] => [FFFD]
+                  end
+                else FFFD :: utf8_decode_fuel f r0
+            | [] => [FFFD]
+            end
+          else FFFD :: utf8_decode_fuel f r0
+      end
+  end.
+
+Definition utf8_decode_replace (b : bytes) : text := utf8_decode_fuel (S (length b)) b.
